@@ -15,3 +15,32 @@ package polling
 //@     requires jsonp == "" ==> t.maxHTTPBufferSize <= 0 || (old(r.ContentLength) >= 0 && old(r.ContentLength) <= t.maxHTTPBufferSize) || (bodybound(arg0) >= 0 && bodybound(arg0) <= t.maxHTTPBufferSize) [C13.poll.bound]
 //@   callsite ResponseWriter.WriteHeader
 //@     requires arg0 == 413 ==> t.maxHTTPBufferSize > 0 && old(r.ContentLength) > t.maxHTTPBufferSize [C13.poll.accepts]
+
+// C02 / C01 (polling transport). The poll queue is the same FIFO: add appends in one critical section, get drains.
+//@ func (*pollQueue).add
+//@   opt safety off
+//@   requires pq != nil
+//@   ghost stores int = 0
+//@   onstore packets
+//@     requires recv == pq && wheld(pq.mu) && stores == 0 [C02.pollq.add.atomic]
+//@     update stores = stores + 1
+//@   ensures len(pq.packets) == old(len(pq.packets)) + len(packets) [C02.pollq.add.len]
+//@   ensures forall k int :: 0 <= k && k < old(len(pq.packets)) ==> pq.packets[k] == old(pq.packets[k]) [C02.pollq.add.keeps]
+//@   ensures forall k int :: 0 <= k && k < len(packets) ==> pq.packets[old(len(pq.packets)) + k] == old(packets[k]) [C02.pollq.add.appends.in.order]
+//@   ensures !held(pq.mu) [C02.pollq.add.released]
+
+//@ func (*pollQueue).get
+//@   opt safety off
+//@   requires pq != nil
+//@   onstore packets
+//@     requires recv == pq && wheld(pq.mu) [C02.pollq.get.atomic]
+//@   ensures result == old(pq.packets) && len(pq.packets) == 0 [C02.pollq.get.all]
+//@   ensures !held(pq.mu) [C02.pollq.get.released]
+
+//@ func (*ServerTransport).Send
+//@   opt safety off
+//@   ghost adds int = 0
+//@   callsite (*pollQueue).add skip
+//@     requires recv == t.pq && arg0 == packets && adds == 0 [C02.polling.send.one.add]
+//@     update adds = adds + 1
+//@   ensures adds == 1 [C02.polling.send.once]
